@@ -596,6 +596,25 @@ async def run_session(corr: Corr, sess: dict):
             t.cancel()
     if reads:
         await asyncio.wait(reads, timeout=1)
+    # what was received before the disconnect and not yet read is still owed to reads, in order, each once
+    if not bad and r[0] == "ok":
+        want = expected_arrivals(transport, ops)
+        got_before = len(steps[-1][0]) if steps else 0
+        late = []
+        for _ in want[got_before:]:
+            t = asyncio.ensure_future(tr.read())
+            await settle()
+            if not t.done():
+                t.cancel()
+                await asyncio.wait([t], timeout=1)
+                late.append(("nothing",))
+                break
+            o = outcome_of(t)
+            late.append(("m", o[1]) if o[0] == "ok" else (("e",) if o[0] == "transport" else o))
+        if late != want[got_before:]:
+            corr.violate("messages / errors received before the disconnect were not delivered to the reads that followed it",
+                         {**rec, "unread_at_disconnect": repr(want[got_before:]), "read_after_disconnect": repr(late)})
+        corr.count("reads-after-disconnect", len(late))
     left = await leftover_tasks()
     if left:
         corr.violate("tasks left running after disconnect", {**rec, "leftover": left})
